@@ -234,6 +234,9 @@ mod util;
 #[cfg(ldap3_verif)]
 pub mod verif {
     pub use crate::conn::VerifIo;
+    #[cfg(not(feature = "gssapi"))]
+    pub use crate::protocol::verif_encode;
+    pub use crate::protocol::verif_decode;
 }
 
 pub use conn::{LdapConnAsync, LdapConnSettings, StdStream};
